@@ -49,15 +49,15 @@ def enum_shapes(names, widths=(8,)):
         if mx >= 3:
             tags.insert(1, tag_v("M", mid))
         out.append(enum(names.new("Eci"), w, tags))
-        # open incomplete
-        out.append(enum(names.new("Eoi"), w, tags + [tag_o("Other")]))
+        # open incomplete; the default tag is NOT the last one (any order is legal)
+        out.append(enum(names.new("Eoi"), w, tags[:1] + [tag_o("Other")] + tags[1:]))
         if mx >= 7:
             lo, hi = 2, min(mx - 2, 5 if w <= 8 else mid)
             # closed with ranges (one with nested tags, one without)
             rt = [tag_v("A", 0), tag_r("R", lo, hi, [tag_v("RA", lo), tag_v("RB", hi)]),
                   tag_v("Z", mx)]
             out.append(enum(names.new("Ecr"), w, rt))
-            out.append(enum(names.new("Eor"), w, rt + [tag_o("Other")]))
+            out.append(enum(names.new("Eor"), w, rt[:1] + [tag_o("Other")] + rt[1:] if w % 2 else rt + [tag_o("Other")]))
             if mx >= 15:
                 rt2 = [tag_v("A", 1), tag_r("R", lo + 1, hi, []), tag_r("S", hi + 1, mx - 1, [tag_v("SA", hi + 1)])]
                 out.append(enum(names.new("Ecr2"), w, rt2))
@@ -208,6 +208,9 @@ def payload_packets(names, rng, enums8):
         # fields after an unsized payload that are not whole octets each
         out.append(packet(names.new("Pt"), [scalar("a", 8), pf, scalar("x", 4), scalar("y", 12)]))
         out.append(packet(names.new("Pt"), [pf, scalar("x", 3), scalar("y", 5), scalar("z", 8)]))
+        # a padded array after an unsized payload: the trailer is as long as the PADDING
+        out.append(packet(names.new("Pt"), [scalar("a", 8), pf, array("tr", width=8, size=2), padding(4), scalar("crc", 8)]))
+        out.append(packet(names.new("Pt"), [pf, array("tr", width=16, size=1), padding(5)]))
     out.append(packet(names.new("Pm"), [size_f("_payload_", 8), payload("+2"), scalar("t", 8)]))
     out.append(packet(names.new("Pm"), [scalar("x", 3), size_f("_payload_", 5), payload("+1")]))
     return out
@@ -351,6 +354,30 @@ def inheritance_trees(names, rng, enums8, s_static=None):
     ems = names.new("Ems")
     out.append(struct(ems, []))
     out.append(packet(names.new("Emu"), [scalar("a", 8), typedef("m", ems), scalar("b", 8)]))
+    # 5f. size modifiers x inheritance: the modifier belongs to ONE payload only
+    fr = names.new("Ip")
+    out.append(packet(fr, [scalar("kind", 8), size_f("_payload_", 8), payload("+2")]))
+    ms = names.new("Ic")
+    out.append(packet(ms, [scalar("seq", 8), size_f("_payload_", 8), payload()], parent_id=fr, constraints=[constraint("kind", 1)]))
+    out.append(packet(names.new("Ic"), [scalar("token", 16)], parent_id=ms, constraints=[constraint("seq", 7)]))
+    fr = names.new("Ip")
+    out.append(packet(fr, [scalar("kind", 8), size_f("_payload_", 8), payload()]))
+    ms = names.new("Ic")
+    out.append(packet(ms, [scalar("seq", 8), size_f("_payload_", 8), payload("+3")], parent_id=fr, constraints=[constraint("kind", 1)]))
+    out.append(packet(names.new("Ic"), [scalar("token", 16)], parent_id=ms, constraints=[constraint("seq", 7)]))
+    # 5g. siblings (under an alias) that constrain DIFFERENT fields: the cases of one child
+    #     must not leak into the arms of the next
+    p = names.new("Ip")
+    out.append(packet(p, [scalar("a", 8), scalar("b", 8), scalar("c", 8), payload()]))
+    mid = names.new("Ia")
+    out.append(packet(mid, [payload()], parent_id=p))
+    out.append(packet(names.new("Ig"), [scalar("x", 8)], parent_id=mid, constraints=[constraint("a", 1)]))
+    out.append(packet(names.new("Ig"), [scalar("y", 16)], parent_id=mid, constraints=[constraint("b", 2)]))
+    out.append(packet(names.new("Ig"), [scalar("z", 24)], parent_id=mid, constraints=[constraint("c", 3)]))
+    mid2 = names.new("Ia")
+    out.append(packet(mid2, [scalar("m", 8), payload()], parent_id=p, constraints=[constraint("c", 9)]))
+    out.append(packet(names.new("Ig"), [scalar("x", 8)], parent_id=mid2, constraints=[constraint("b", 4)]))
+    out.append(packet(names.new("Ig"), [scalar("y", 16)], parent_id=mid2, constraints=[constraint("a", 5)]))
     # 6. parent without payload, child without fields
     p = names.new("Ip")
     out.append(packet(p, [scalar("a", 8), scalar("b", 8)]))
@@ -385,6 +412,7 @@ def codec_module(seed, endianness, prefix="", tier="quick"):
     decls += optional_packets(names, rng, enums8, enums16, structs[0], structs[1], by_w)
     decls += typedef_packets(names, rng, enums8, structs[0], structs[1], structs[2], customs)
     decls += inheritance_trees(names, rng, enums8, structs[0])
+    decls += composed_packets(names, random.Random(seed * 7919 + 1), by_w, structs, customs, 40 if quick else 120)
     # one packet per enum so that every enum is exercised inside a codec
     for e in enums:
         w = e["width"]
@@ -392,6 +420,219 @@ def codec_module(seed, endianness, prefix="", tier="quick"):
         fs = [typedef("e", e["id"])] + ([scalar("p", pad)] if pad else [])
         decls.append(packet(names.new("En"), fs))
     return file(endianness, decls)
+
+
+# --------------------------------------------------------------------------- random composition
+
+class Composer:
+    """Random packets composed from a palette of byte-aligned SEGMENTS (bit-field groups,
+    arrays of every shape with and without padding, struct / custom typedefs, optional
+    fields, sized / unsized payloads with and without size modifiers) and random
+    inheritance over them (constraints at several levels, children with payloads of
+    their own).  The hand-written shapes above enumerate features one at a time; this
+    exercises their INTERACTIONS.  Everything stays inside what the Rust backend supports
+    and inside the listed-findings-free zone (no _elementsize_, counts below 56 bits)."""
+
+    def __init__(self, names, rng, by_w, structs, customs):
+        self.names, self.rng, self.by_w = names, rng, by_w
+        self.s_static, self.s_sized, self.s_counted, _ = structs
+        self.customs = customs
+        self.k = 0
+
+    def fid(self, stem="f"):
+        self.k += 1
+        return f"{stem}{self.k}"
+
+    # ---- segments: each returns (fields, static?) and is a whole number of octets
+    def seg_bits(self):
+        rng = self.rng
+        W = rng.choice([8, 8, 16, 16, 24, 32, 40, 64])
+        fs, cons = [], []
+        for w in partitions_of(W, rng, 4):
+            kind = rng.choice(["scalar", "scalar", "enum", "fixed", "reserved"])
+            cands = self.by_w.get(w)
+            if kind == "enum" and cands:
+                e = rng.choice(cands)
+                i = self.fid("e")
+                fs.append(typedef(i, e["id"]))
+                vt = [t for t in e["tags"] if "value" in t]
+                if vt:
+                    cons.append(("enum", i, [t["id"] for t in vt]))
+            elif kind == "fixed":
+                fs.append(fixed_s(w, rng.randrange(1 << w)))
+            elif kind == "reserved":
+                fs.append(reserved(w))
+            else:
+                i = self.fid("s")
+                fs.append(scalar(i, w))
+                cons.append(("scalar", i, list(range(min(1 << w, 6))) + ([(1 << w) - 1] if w > 3 else [])))
+        return fs, True, cons
+
+    def elem(self, static_only=False):
+        rng = self.rng
+        opts = [dict(width=8), dict(width=16), dict(width=24), dict(width=32),
+                dict(type_id=self.by_w[8][0]["id"]), dict(type_id=self.by_w[16][0]["id"]),
+                dict(type_id=self.s_static["id"])]
+        if not static_only:
+            opts += [dict(type_id=self.s_sized["id"]), dict(type_id=self.s_counted["id"])]
+        return rng.choice(opts)
+
+    def seg_array_dyn(self):
+        rng = self.rng
+        i = self.fid("a")
+        ekw = self.elem()
+        dyn = ekw.get("type_id") in (self.s_sized["id"], self.s_counted["id"])
+        head = rng.choice(["size8", "count8", "size16", "count4", "size12"])
+        if head == "size8":
+            fs = [size_f(i, 8)]
+        elif head == "count8":
+            fs = [count_f(i, 8)]
+        elif head == "size16":
+            fs = [size_f(i, 16)]
+        elif head == "count4":
+            fs = [count_f(i, 4), scalar(self.fid("s"), 4)]
+        else:
+            fs = [scalar(self.fid("s"), 4), size_f(i, 12)]
+        fs.append(array(i, **ekw))
+        if rng.random() < 0.3 and not dyn:
+            fs.append(padding(rng.choice([16, 24, 40])))
+        return fs, False, []
+
+    def seg_array_static(self):
+        rng = self.rng
+        i = self.fid("a")
+        n = rng.choice([1, 1, 2, 3])
+        ekw = self.elem(static_only=True)
+        fs = [array(i, size=n, **ekw)]
+        if rng.random() < 0.4:
+            fs.append(padding(rng.choice([16, 24])))
+        return fs, True, []
+
+    def seg_struct(self):
+        rng = self.rng
+        t = rng.choice([self.s_static, self.s_static, self.s_sized, self.s_counted])
+        return [typedef(self.fid("t"), t["id"])], t is self.s_static, []
+
+    def seg_custom(self):
+        return [typedef(self.fid("c"), self.rng.choice(self.customs)["id"])], True, []
+
+    def seg_optional(self):
+        rng = self.rng
+        flags = [self.fid("c") for _ in range(rng.choice([1, 2]))]
+        fs = [scalar(c, 1) for c in flags] + [reserved(8 - len(flags))]
+        for _ in range(rng.choice([1, 2, 3])):
+            c = rng.choice(flags)
+            v = rng.choice([0, 1])
+            k = rng.choice(["scalar", "scalar", "enum", "struct"])
+            if k == "scalar":
+                fs.append(scalar(self.fid("o"), rng.choice([8, 16, 24, 32, 40, 64]), cond=constraint(c, v)))
+            elif k == "enum":
+                e = rng.choice(self.by_w[rng.choice([8, 16, 24])])
+                fs.append(typedef(self.fid("o"), e["id"], cond=constraint(c, v)))
+            else:
+                fs.append(typedef(self.fid("o"), rng.choice([self.s_static, self.s_sized])["id"], cond=constraint(c, v)))
+        return fs, False, []
+
+    def payload_seg(self, kind=None):
+        """-> (fields before, the payload field, sized?)"""
+        rng = self.rng
+        pf_kind = kind or rng.choice(["payload", "body"])
+        sid = "_payload_" if pf_kind == "payload" else "_body_"
+        how = rng.choice(["unsized", "unsized", "size8", "size16", "size5", "size8m"])
+        mod = None
+        if how == "unsized":
+            pre = []
+        elif how == "size8":
+            pre = [size_f(sid, 8)]
+        elif how == "size16":
+            pre = [size_f(sid, 16)]
+        elif how == "size5":
+            pre = [scalar(self.fid("s"), 3), size_f(sid, 5)]
+        else:
+            pre = [size_f(sid, 8)]
+            mod = "+%d" % rng.choice([1, 2, 3])
+        pf = (payload(mod) if mod else payload()) if pf_kind == "payload" else body()
+        if pf_kind == "body" and mod:
+            pf = body()
+        return pre, pf, how != "unsized"
+
+    def fields(self, with_payload, n_segs=None):
+        """a field list: random segments, at most one payload; after an UNSIZED payload only
+        static segments follow"""
+        rng = self.rng
+        n = n_segs if n_segs is not None else rng.choice([1, 2, 2, 3, 4])
+        dyn_makers = [self.seg_bits, self.seg_bits, self.seg_array_dyn, self.seg_array_static, self.seg_struct,
+                      self.seg_optional, self.seg_custom]
+        static_makers = [self.seg_bits, self.seg_array_static, self.seg_custom]
+        pos = rng.randrange(n + 1) if with_payload else None
+        out, cons, after_unsized = [], [], False
+        for k in range(n + 1):
+            if with_payload and k == pos:
+                pre, pf, sized = self.payload_seg()
+                out += pre + [pf]
+                after_unsized = not sized
+                continue
+            if k == n and not (with_payload and pos == n):
+                break
+            if k >= n:
+                break
+            mk = rng.choice(static_makers if after_unsized else dyn_makers)
+            fs, static, cs = mk()
+            if after_unsized and not static:
+                fs, static, cs = self.seg_bits()
+            out += fs
+            cons += cs
+        if not with_payload and rng.random() < 0.15 and not after_unsized:
+            out.append(array(self.fid("z"), **self.elem()))      # unsized array in the last position
+        return out, cons
+
+    def tree(self, depth=0):
+        """one root with a random subtree of children"""
+        rng = self.rng
+        out = []
+        fs, cons = self.fields(with_payload=rng.random() < (0.75 if depth == 0 else 0.5))
+        root = packet(self.names.new("Rp"), fs)
+        out.append(root)
+        self.children(root, cons, out, 1)
+        return out
+
+    def children(self, parent, cons, out, depth):
+        """siblings are told apart by distinct values of ONE discriminating field (the
+        backend refuses children it cannot disambiguate); further constraints are random"""
+        rng = self.rng
+        if not any(f["kind"] in ("payload_field", "body_field") for f in parent["fields"]) or depth > 3:
+            return
+        want = rng.choice([0, 1, 1, 2]) if depth > 1 else rng.choice([1, 2, 3])
+        disc = rng.choice(cons) if cons else None
+        if disc is None:
+            want = min(want, 1)
+        else:
+            want = min(want, len(disc[2]))
+        vals = rng.sample(disc[2], want) if disc else []
+        for j in range(want):
+            mine = []
+            if disc:
+                mine.append(constraint(disc[1], vals[j]) if disc[0] == "scalar" else constraint(disc[1], tag_id=vals[j]))
+            others = [c for c in cons if c is not disc]
+            rng.shuffle(others)
+            for kind, i, dom in others[: rng.choice([0, 0, 1, 2])]:
+                v = rng.choice(dom)
+                mine.append(constraint(i, v) if kind == "scalar" else constraint(i, tag_id=v))
+            rng.shuffle(mine)
+            used = {c["id"] for c in mine}
+            rest = [c for c in cons if c[1] not in used]
+            fs, own = self.fields(with_payload=rng.random() < 0.5, n_segs=rng.choice([0, 1, 2]))
+            ch = packet(self.names.new("Rc"), fs, parent_id=parent["id"], constraints=mine)
+            out.append(ch)
+            self.children(ch, rest + own, out, depth + 1)
+
+
+def composed_packets(names, rng, by_w, structs, customs, n_trees):
+    c = Composer(names, rng, by_w, structs, customs)
+    out = []
+    for _ in range(n_trees):
+        out += c.tree()
+    return out
 
 
 def enum_module(endianness, tier="quick"):
